@@ -24,6 +24,20 @@ Definition vdepth_list (vs : list val) : N := fold_right (fun x m => N.max (vdep
 Definition vdepth_entries (kvs : list (val * val)) : N :=
   fold_right (fun kv m => N.max (N.max (vdepth (fst kv)) (vdepth (snd kv))) m) 0 kvs.
 
+(* how many values a value is made of, counting everything that occupies at least one byte of its own on the wire:
+   base values, arrays and dicts (their length field), variants (their signature); a struct is just its fields *)
+Definition nsum (l : list N) : N := fold_right N.add 0 l.
+Fixpoint vcount (v : val) : N :=
+  match v with
+  | VBase _ _ | VText _ _ => 1
+  | VArray _ vs => 1 + fold_right (fun x m => vcount x + m) 0 vs
+  | VStruct vs => fold_right (fun x m => vcount x + m) 0 vs
+  | VDict _ _ kvs => 1 + fold_right (fun kv m => vcount (fst kv) + vcount (snd kv) + m) 0 kvs
+  | VVariant _ x => 1 + vcount x
+  end.
+Definition vcount_list (vs : list val) : N := fold_right (fun x m => vcount x + m) 0 vs.
+Definition vcount_entries (kvs : list (val * val)) : N := fold_right (fun kv m => vcount (fst kv) + vcount (snd kv) + m) 0 kvs.
+
 (* where the u32 length of an array / dict that starts at [off] sits: after the padding to 4 *)
 Definition len_pos (off : N) : N := off + padlen 4 off.
 
